@@ -39,6 +39,7 @@ type vhCoordinator struct {
 	joinOutcome  func(call int) (joinGroupResponse, error) // overrides joinResp/joinErr when set
 	joinMembers  []string                                  // member id carried by each joinGroup request
 	heartbeatMembers []string                              // member id carried by each heartbeat request
+	groupAddrs   []string                                  // "<request>@<address of the connection it was sent on>" (vhCoordConn)
 }
 
 var vhErrCoordinator = errors.New("vh: coordinator failure")
@@ -125,4 +126,30 @@ func (c *vhCoordinator) readPartitions(topics ...string) ([]Partition, error) {
 		}
 	}
 	return out, nil
+}
+
+// vhCoordConn is one connection to the fake cluster, opened to a given address: group requests are only accepted by
+// the coordinator's address (a real broker that is not the coordinator answers NotCoordinatorForGroup); everything
+// else goes to the shared vhCoordinator.
+type vhCoordConn struct {
+	*vhCoordinator
+	addr string
+}
+
+const vhCoordinatorAddr = "h:9092" // what vhCoordinator.findCoordinator answers
+
+func (c *vhCoordConn) leaveGroup(r leaveGroupRequestV0) (leaveGroupResponseV0, error) {
+	c.vhCoordinator.groupAddrs = append(c.vhCoordinator.groupAddrs, "leaveGroup@"+c.addr)
+	if c.addr != vhCoordinatorAddr {
+		return leaveGroupResponseV0{ErrorCode: int16(NotCoordinatorForGroup)}, nil
+	}
+	return c.vhCoordinator.leaveGroup(r)
+}
+func (c *vhCoordConn) joinGroup(r joinGroupRequest) (joinGroupResponse, error) {
+	c.vhCoordinator.groupAddrs = append(c.vhCoordinator.groupAddrs, "joinGroup@"+c.addr)
+	return c.vhCoordinator.joinGroup(r)
+}
+func (c *vhCoordConn) heartbeat(r heartbeatRequestV0) (heartbeatResponseV0, error) {
+	c.vhCoordinator.groupAddrs = append(c.vhCoordinator.groupAddrs, "heartbeat@"+c.addr)
+	return c.vhCoordinator.heartbeat(r)
 }
